@@ -5,8 +5,12 @@
 use crate::common::http::{parse_response, RespParse};
 use crate::common::net::connect_retry;
 use crate::engine::{hash_of, pt, Ctx, Fail};
-use humphrey::http::{Request, Response, StatusCode};
+use humphrey::http::Request;
+#[cfg(not(hvt))]
+use humphrey::http::{Response, StatusCode};
+#[cfg(not(hvt))]
 use humphrey::stream::Stream;
+#[cfg(not(hvt))]
 use humphrey::App;
 use proptest::prelude::*;
 use serde::{Deserialize, Serialize};
@@ -46,15 +50,24 @@ pub struct Scenario {
     pub bind: u8,
 }
 
-struct Gate {
-    open: Mutex<bool>,
-    cv: Condvar,
-    entered: Mutex<usize>,
+pub struct Gate {
+    pub open: Mutex<bool>,
+    pub cv: Condvar,
+    pub entered: Mutex<usize>,
     /// connection numbers (query `c=<i>`) whose handler has started: evidence that the request was received
-    started: Mutex<std::collections::BTreeSet<usize>>,
+    pub started: Mutex<std::collections::BTreeSet<usize>>,
 }
 
-fn mark(r: &Request, s: &Arc<Arc<Gate>>) {
+/// what a runtime-specific starter returns: the channel on which `run`'s result arrives and the shutdown signal
+pub struct Started {
+    pub done: std::sync::mpsc::Receiver<Result<(), String>>,
+    pub signal: Box<dyn FnOnce() + Send>,
+}
+
+/// (threads, gate, bind address, send the signal even before run is called) -> Started
+pub type StartFn<'a> = &'a (dyn Fn(usize, Arc<Gate>, SocketAddr, bool) -> Started + Sync);
+
+pub fn mark(r: &Request, s: &Arc<Arc<Gate>>) {
     if let Some(n) = r.query.strip_prefix("c=").and_then(|x| x.parse::<usize>().ok()) {
         s.started.lock().unwrap().insert(n);
     }
@@ -62,6 +75,7 @@ fn mark(r: &Request, s: &Arc<Arc<Gate>>) {
 
 pub const HUGE: usize = 6 << 20;
 
+#[cfg(not(hvt))]
 fn build(threads: usize, gate: Arc<Gate>) -> App<Arc<Gate>> {
     App::new_with_config(threads, gate)
         .with_route("/ok", |r: Request, s: Arc<Arc<Gate>>| {
@@ -126,15 +140,34 @@ fn read_one_response(s: &mut TcpStream, max: Duration) -> Result<(u16, usize), S
     }
 }
 
-pub fn run_scenario(s: &Scenario, shard: usize) -> Vec<Fail> {
-    run_scenario2(s, shard, None)
-}
-
-pub fn run_scenario2(s: &Scenario, shard: usize, ctx: Option<&Ctx>) -> Vec<Fail> {
-    let gate = Arc::new(Gate { open: Mutex::new(false), cv: Condvar::new(), entered: Mutex::new(0), started: Mutex::new(Default::default()) });
-    let app = build(s.threads.max(1), gate.clone());
+#[cfg(not(hvt))]
+pub fn start_sync(threads: usize, gate: Arc<Gate>, bind_addr: SocketAddr, signal_first: bool) -> Started {
+    let app = build(threads.max(1), gate);
     let (tx, rx) = std::sync::mpsc::channel();
     let app = app.with_shutdown(rx);
+    let (done_tx, done_rx) = std::sync::mpsc::channel();
+    if signal_first {
+        let _ = tx.send(());
+    }
+    std::thread::spawn(move || {
+        let r = app.run(bind_addr).map_err(|e| e.to_string());
+        let _ = done_tx.send(r);
+    });
+    Started {
+        done: done_rx,
+        signal: Box::new(move || {
+            let _ = tx.send(());
+        }),
+    }
+}
+
+#[cfg(not(hvt))]
+pub fn run_scenario(s: &Scenario, shard: usize) -> Vec<Fail> {
+    run_scenario2(s, shard, None, &start_sync, 21000)
+}
+
+pub fn run_scenario2(s: &Scenario, shard: usize, ctx: Option<&Ctx>, start: StartFn, port_base: u16) -> Vec<Fail> {
+    let gate = Arc::new(Gate { open: Mutex::new(false), cv: Condvar::new(), entered: Mutex::new(0), started: Mutex::new(Default::default()) });
     let (bind_ip, connect_ip) = match s.bind % 3 {
         0 => (format!("127.0.20.{}", 1 + shard), format!("127.0.20.{}", 1 + shard)),
         1 => ("0.0.0.0".to_string(), format!("127.0.20.{}", 1 + shard)),
@@ -145,9 +178,9 @@ pub fn run_scenario2(s: &Scenario, shard: usize, ctx: Option<&Ctx>) -> Vec<Fail>
     static COUNTER: std::sync::atomic::AtomicUsize = std::sync::atomic::AtomicUsize::new(0);
     let port = {
         let mut found = None;
-        for _ in 0..600 {
+        for _ in 0..300 {
             let k = COUNTER.fetch_add(1, std::sync::atomic::Ordering::SeqCst);
-            let p = 21000 + (shard % 16) as u16 * 600 + (k % 600) as u16;
+            let p = port_base + (shard % 16) as u16 * 300 + (k % 300) as u16;
             let ok_specific = TcpListener::bind((bind_ip.as_str(), p)).is_ok();
             let ok_wild = TcpListener::bind(("0.0.0.0", p)).is_ok() && TcpListener::bind(("::", p)).is_ok();
             if ok_specific && ok_wild {
@@ -162,16 +195,10 @@ pub fn run_scenario2(s: &Scenario, shard: usize, ctx: Option<&Ctx>) -> Vec<Fail>
     };
     let bind_addr: SocketAddr = format!("{}:{}", if bind_ip.contains(':') { format!("[{}]", bind_ip) } else { bind_ip.clone() }, port).parse().unwrap();
     let connect_addr: SocketAddr = format!("{}:{}", if connect_ip.contains(':') { format!("[{}]", connect_ip) } else { connect_ip.clone() }, port).parse().unwrap();
-    let (done_tx, done_rx) = std::sync::mpsc::channel();
-    if matches!(s.when, When::BeforeFirstConnection) && s.conns.is_empty() {
-        // the signal may even precede run()
-        let _ = tx.send(());
-    }
+    let signal_first = matches!(s.when, When::BeforeFirstConnection) && s.conns.is_empty();
     let t_start = Instant::now();
-    std::thread::spawn(move || {
-        let r = app.run(bind_addr).map_err(|e| e.to_string());
-        let _ = done_tx.send(r);
-    });
+    let Started { done: done_rx, signal } = start(s.threads.max(1), gate.clone(), bind_addr, signal_first);
+    let mut signal = Some(signal);
     let mut fails = Vec::new();
     let open_gate = || {
         *gate.open.lock().unwrap() = true;
@@ -207,7 +234,8 @@ pub fn run_scenario2(s: &Scenario, shard: usize, ctx: Option<&Ctx>) -> Vec<Fail>
     let long_count = s.conns.iter().filter(|c| **c == ConnState::HandlerLong).count();
     let occupying = s.conns.iter().filter(|c| matches!(c, ConnState::HandlerLong | ConnState::WebSocketOpen | ConnState::IdleKeepAlive | ConnState::JustAccepted | ConnState::HalfSent | ConnState::ResponseBeingWritten)).count();
     let establish = |st: ConnState, idx: usize| -> Result<Conn, String> {
-        let mut sock = connect_retry(connect_addr, Duration::from_secs(5)).map_err(|e| e.to_string())?;
+        // connections racing with the signal get a single attempt: the listener may already be gone
+        let mut sock = if idx == 9999 { TcpStream::connect_timeout(&connect_addr, Duration::from_millis(300)).map_err(|e| e.to_string())? } else { connect_retry(connect_addr, Duration::from_secs(5)).map_err(|e| e.to_string())? };
         let _ = sock.set_nodelay(true);
         let mut awaiting = None;
         match st {
@@ -268,10 +296,12 @@ pub fn run_scenario2(s: &Scenario, shard: usize, ctx: Option<&Ctx>) -> Vec<Fail>
     match s.when {
         When::DuringBurst(off) => {
             let rest: Vec<ConnState> = s.conns.iter().skip(burst_at).copied().collect();
-            let tx2 = tx.clone();
+            let sg = signal.take();
             let sig = std::thread::spawn(move || {
                 std::thread::sleep(Duration::from_micros(off as u64 * 100));
-                let _ = tx2.send(());
+                if let Some(f) = sg {
+                    f();
+                }
                 Instant::now()
             });
             for st in rest {
@@ -285,7 +315,9 @@ pub fn run_scenario2(s: &Scenario, shard: usize, ctx: Option<&Ctx>) -> Vec<Fail>
         }
         _ => {
             if !signalled {
-                let _ = tx.send(());
+                if let Some(f) = signal.take() {
+                    f();
+                }
             }
             t_signal = if signalled { t_start } else { Instant::now() };
         }
@@ -359,7 +391,7 @@ pub fn run_scenario2(s: &Scenario, shard: usize, ctx: Option<&Ctx>) -> Vec<Fail>
     fails
 }
 
-fn arb_scenario() -> impl Strategy<Value = Scenario> {
+pub fn arb_scenario() -> impl Strategy<Value = Scenario> {
     let st = prop_oneof![
         Just(ConnState::JustAccepted),
         Just(ConnState::IdleKeepAlive),
@@ -393,6 +425,7 @@ fn arb_scenario() -> impl Strategy<Value = Scenario> {
         })
 }
 
+#[cfg(not(hvt))]
 pub fn run(ctx: &Ctx) {
     ctx.rule("traffic states at the instant of the signal: 0..16 connections each {just accepted, idle keep-alive, half-sent request, short handler, handler blocked on a harness gate, 6 MB response with a reader that does not read, WebSocket open}, pools of 1..8 threads (often fully occupied with queued connections), signal before the first connection (even before run), after the states are established, or concurrently with a burst of connects (offset 0..5 ms); bind 127.0.0.x, 0.0.0.0 and [::] with an explicit free port. Oracle: a probe is served before the signal (when a worker is free), `run` returns Ok within 10 s (else one extra connection is made to pinpoint a lost wake-up), the same address binds again at once, and every request fully sent before the signal gets its complete response after the gate opens. Non-trivial: a connection that is not idle at the signal, a fully occupied pool, or a signal concurrent with connects; distinct by scenario");
     ctx.assume("threaded runtime; timing is sampled, not controlled; bounded time is the property (10 s margin, typical return is milliseconds); connections racing with the signal are not required to be answered");
@@ -406,7 +439,7 @@ pub fn run(ctx: &Ctx) {
             arb_scenario(),
             |s| serde_json::to_value(s).unwrap(),
             |s| {
-                let f = run_scenario2(s, i, Some(ctx));
+                let f = run_scenario2(s, i, Some(ctx), &start_sync, 21000);
                 if let Some(h) = f.iter().find(|x| x.sig.starts_with("harness-")) {
                     ctx.inconclusive(&format!("{}: {}", h.sig, h.detail));
                     return Vec::new();
@@ -435,6 +468,7 @@ pub fn run(ctx: &Ctx) {
     });
 }
 
+#[cfg(not(hvt))]
 pub fn replay(_ctx: &Ctx, _kind: &str, case: &J) -> Vec<Fail> {
     match serde_json::from_value::<Scenario>(case.clone()) {
         Ok(s) => run_scenario(&s, 15),
